@@ -506,7 +506,6 @@ class DiscriminatedUnionUnpackerBuilder(AbstractUnpackerBuilder):
                 spec.builder.ensure_object_imported(spec.builder.__class__)
                 lines.append(
                     "CodeBuilder(variant, "
-                    "dialect=_dialect, "
                     f"format_name={repr(spec.builder.format_name)}, "
                     "default_dialect=_default_dialect)"
                     ".add_unpack_method()"
